@@ -657,7 +657,79 @@ def r5(prog, rep):
     else:
         rep.violation("C12.R5", "SolverWrapper._apply_pending_bound_updates:queues-cleared",
                       f"queues not cleared on every exit: {sorted(need - cleared)} would be applied again before the next optimize()", f.loc())
-    # optimize applies the queue before running
+    apply_before_run(prog, rep, "C12.R5")
+    return
+
+
+def apply_before_run(prog, rep, RID: str):
+    """On every path of SolverWrapper.optimize that starts a solver run - a call of self.solver.optimize(), or the bound method
+    handed to _run_with_timeout - the queued bound updates were applied before (must-call dataflow over all paths)."""
+    from sa.flow import Flow
+    g = prog.own_method("SolverWrapper", "optimize")
+
+    def is_apply(n):
+        return isinstance(n, ast.Call) and dotted(n.func) == "self._apply_pending_bound_updates"
+
+    def run_sites(node):
+        out = []
+        for n in ast.walk(node):
+            if isinstance(n, ast.Call) and dotted(n.func) == "self.solver.optimize":
+                out.append(n)
+            elif isinstance(n, ast.Call) and any(dotted(a) == "self.solver.optimize" for a in list(n.args) + [k.value for k in n.keywords]):
+                out.append(n)
+        return out
+
+    class MustApply(Flow):
+        def __init__(self):
+            self.bad = []
+            self.sites = 0
+
+        def initial(self, func):
+            return frozenset([False])
+
+        def join(self, a, b):
+            return a | b
+
+        def _expr(self, e, state):
+            if e is None or state is None:
+                return state
+            # evaluation order inside one expression: an apply call textually before the run in the same statement counts
+            events = sorted([(n.lineno, n.col_offset, "apply") for n in ast.walk(e) if is_apply(n)] +
+                            [(n.lineno, n.col_offset, n) for n in run_sites(e)], key=lambda t: (t[0], t[1]))
+            for ln, col, what in events:
+                if what == "apply":
+                    state = frozenset([True])
+                else:
+                    if self.quiet == 0:
+                        self.sites += 1
+                        if False in state:
+                            self.bad.append(what)
+            return state
+
+        def transfer(self, stmt, state):
+            for fld in ("value", "test", "iter"):
+                v = getattr(stmt, fld, None)
+                if isinstance(v, ast.AST):
+                    state = self._expr(v, state)
+            return state
+
+        def refine(self, test, pol, state):
+            return self._expr(test, state)
+
+    fl = MustApply()
+    fl.run(g.node)
+    key = "SolverWrapper.optimize:apply-before-run"
+    if fl.sites == 0:
+        raise AnalysisError("SolverWrapper.optimize: no solver run found")
+    if fl.bad:
+        rep.violation(RID, key, f"a solver run (`{norm(fl.bad[0])[:80]}`) is reachable on a path on which the queued bound updates were not applied: fixes and lower "
+                      "bounds queued through queue_fix_variable / queue_set_var_lower_bound are dropped there while the models already rely on them "
+                      "(edges_set_to_one -> pi == w)", g.loc(fl.bad[0]))
+    else:
+        rep.ok(RID, key, f"queued updates are applied before the solver run on every path ({fl.sites} run site(s))", g.loc())
+
+
+def _old_apply_before_run(prog, rep):
     g = prog.own_method("SolverWrapper", "optimize")
     order = []
     for c in sorted(calls_in(g.node), key=lambda c: (c.lineno, c.col_offset)):
